@@ -26,7 +26,7 @@ RULE = ("(a) random histories of TraceSymbolTable operations (add_symbols with r
         "distinct symbol orderings. Distinct = hash of the case.")
 ASSUMPTIONS = ["only the JSON parser backend is reachable", "fork start method (the library's own choice) works in the sandbox",
                "digest comparison covers the getters listed in hv/c11_digest.py"]
-PLAN = {"quick": {"shards": 16, "cases": 480, "timeout": 900}, "thorough": {"shards": 16, "cases": 6000, "timeout": 3400}}
+PLAN = {"quick": {"shards": 16, "cases": 720, "timeout": 900}, "thorough": {"shards": 16, "cases": 6000, "timeout": 3400}}
 FLOORS = {"quick": {"distinct_nontrivial": 150, "TraceSymbolTable.invariant": 3000, "add_symbols.post": 1500, "histories": 250, "loads": 80,
                     "rows_decoded": 10000, "delayed_pool_loads": 15, "incremental_histories": 25, "digest_sets": 6, "digest_runs": 36,
                     "distinct_symbol_orderings": 12, "int8_boundary_loads": 10},
